@@ -10,6 +10,7 @@ the regenerated template table, expanded by the C16 model) and the value after t
 are part of the view (computed by the harness with the real library).
 -/
 import Flatland.C16
+import Flatland.C15Url
 import Flatland.C16.Tables
 import Flatland.Generated.C16Catalogues
 namespace Flatland.C15
@@ -84,13 +85,6 @@ inductive RawView
   | badPairs                   -- items that do not unpack into two: ValueError (caught since 5e93603)
   deriving Repr, Inhabited
 
-/-- one attribute of a `urlparse` result as `getattr(parsed, part)` yields it -/
-inductive PartVal
-  | raises                     -- ValueError (e.g. `.port` of `http://h:x/`)
-  | none
-  | str (s : Str)
-  deriving Repr, Inhabited, DecidableEq
-
 structure View where
   value : Val := .none
   u : Str := []
@@ -107,27 +101,22 @@ structure View where
   containerLabel : Val := .none
   siblings : List (Val × Str) := []    -- (value, u) of container.children
   pos : Option Nat := none             -- index of the element itself among them
+  -- the validation state the siblings carry: (`.valid`: True / False / none = Unevaluated, number of errors).
+  -- No `validate` method reads it (theorem `verdict_ignores_validation_state`)
+  siblingState : List (Option Bool × Nat) := []
   -- SetWithKnownFields / SetWithAllFields
   raw : RawView := .unset
   schemaKeys : List Str := []          -- element.field_schema_mapping.keys()
   -- opaque externals, evaluated by the harness on the element's value
   idna : Option Str := none            -- domain.encode('idna').decode('ascii'); none = UnicodeError
   localOk : Option Bool := none        -- local_part_pattern.match(local_part); none = no pattern set
-  urlParts : Option (List Str) := none -- urlparse(value.strip()) as 6 strings; none = exception
-  httpParts : Option (List PartVal) := none  -- getattr(urlparse(value), part) for the 9 parts
-  canon : Option Val := none           -- urlunparse(blanked urlparse(value)); none = exception
+  lib : UrlLib := {}                   -- `self.urlparse`: urlparse(text) / urlunparse(parts) as tables (C15Url.lean)
   deriving Repr, Inhabited
 
 /-! ### validators and their parameters -/
 
 inductive EqKind | element | value | u
   deriving Repr, DecidableEq, Inhabited
-
-/-- an entry of `required_parts` / `forbidden_parts` -/
-inductive PartRule
-  | always                     -- `True`
-  | oneOf (l : List Str)       -- a collection of strings
-  deriving Repr, Inhabited
 
 inductive V
   | present | isTrue | isFalse | converted
@@ -149,22 +138,10 @@ inductive V
   | setWithKnownFields | setWithAllFields
   | luhn10
   | isEmail (nonLocal : Bool)
-  | urlValidator (allowedSchemes : Option (List Str)) (allowedParts : List Str)
-  | httpURL (required forbidden : List (Str × PartRule))
+  | urlValidator (allowedSchemes allowedParts : List Str)
+  | httpURL (allParts : List Str) (required forbidden : List (Str × PartRule))
   | urlCanonicalizer (discardParts : List Str)
   deriving Repr, Inhabited
-
-/-- the `note_error(element, state, key, **info)` call of a failing validator -/
-structure Note where
-  key : String
-  info : List (Str × Val) := []
-  deriving Repr, Inhabited
-
-abbrev Verdict := Bool × Option Note
-
-def pass : Except Raise Verdict := .ok (true, none)
-def fail (key : String) (info : List (Str × Val) := []) : Except Raise Verdict :=
-  .ok (false, some { key := key, info := info })
 
 /-! ### number.py -/
 
@@ -229,12 +206,6 @@ def dupLoop (me : Val × Str) (pos : Option Nat) : List (Val × Str) → Nat →
 
 /-! ### network.py helpers -/
 
-/-- `str.isspace` code points (pinned against the running interpreter by the extractor) -/
-def isSpaceChar (c : Char) : Bool :=
-  let n := c.toNat
-  (9 ≤ n && n ≤ 13) || (28 ≤ n && n ≤ 32) || n == 133 || n == 160 || n == 5760 ||
-  (8192 ≤ n && n ≤ 8202) || n == 8232 || n == 8233 || n == 8239 || n == 8287 || n == 12288
-
 /-- `s.split(sep)` for a one-character separator -/
 def splitOnChar (sep : Char) : Str → List Str
   | [] => [[]]
@@ -253,44 +224,6 @@ def domainMatches (d : Str) : Bool :=
     | '\n' :: r => r.reverse
     | _ => d
   (splitOnChar '.' body).all (fun l => !l.isEmpty && l.all isDomainChar)
-
-def urlPartNames : List Str :=
-  ["scheme".toList, "netloc".toList, "path".toList, "params".toList, "query".toList,
-   "fragment".toList]
-
-def httpPartNames : List Str :=
-  ["scheme".toList, "username".toList, "password".toList, "hostname".toList, "port".toList,
-   "path".toList, "params".toList, "query".toList, "fragment".toList]
-
-/-- the `for part in _url_parts` loop of `URLValidator.validate` -/
-def urlPartsLoop (allowed : List Str) : List Str → List Str → Except Raise Verdict
-  | [], _ => pass
-  | _ :: _, [] => .error .attributeError         -- fewer than six parts: not a urlparse result
-  | name :: names, v :: vs =>
-    if !allowed.contains name && !v.isEmpty then fail "blocked_part"
-    else urlPartsLoop allowed names vs
-
-/-- the `for part in self.all_parts` loop of `HTTPURLValidator.validate` -/
-def httpPartsLoop (required forbidden : List (Str × PartRule)) :
-    List Str → List PartVal → Except Raise Verdict
-  | [], _ => pass
-  | _ :: _, [] => .error .attributeError
-  | name :: names, v :: vs =>
-    match v with
-    | .raises => fail "bad_format"
-    | v =>
-      let reqFail : Bool := match required.lookup name with
-        | some .always => v == .none
-        | some (.oneOf l) => !l.isEmpty && (match v with | .str s => !l.contains s | _ => true)
-        | none => false
-      if reqFail then fail "required_part"
-      else
-        let forbFail : Bool := match forbidden.lookup name with
-          | some .always => (match v with | .str s => !s.isEmpty | _ => false)
-          | some (.oneOf l) => !l.isEmpty && (match v with | .str s => l.contains s | _ => false)
-          | none => false
-        if forbFail then fail "forbidden_part"
-        else httpPartsLoop required forbidden names vs
 
 /-- `len(element.value) if element.value is not None else 0` -/
 def lenOrZero : Option Nat → Int
@@ -481,45 +414,35 @@ def verdict (v : V) (e : View) : Except Raise Verdict :=
   | .urlValidator allowedSchemes allowedParts =>
     match e.value with
     | .none => fail "bad_format"
-    | .str _ =>
-      match e.urlParts with
-      | none => fail "bad_format"
-      | some parts =>
-        match parts with
-        | [] => .error .attributeError
-        | scheme :: _ =>
-          if scheme.isEmpty then fail "blocked_scheme"
-          else if (match allowedSchemes with
-                   | none => false                                -- ('*',)
-                   | some l => !l.contains scheme) then fail "blocked_scheme"
-          else urlPartsLoop allowedParts urlPartNames parts
+    | .str value => urlValidate allowedSchemes allowedParts e.lib value
     | _ => fail "bad_format"                                     -- `.strip()` fails inside the try
-  | .httpURL required forbidden =>
+  | .httpURL allParts required forbidden =>
     match e.value with
-    | .none => pass
-    | .str _ =>
-      match e.httpParts with
-      | none => fail "bad_format"
-      | some parts => httpPartsLoop required forbidden httpPartNames parts
+    | .none => pass                                              -- `if url is None: return True`
+    | .str url => httpValidate allParts required forbidden e.lib url
     | _ => .error .attributeError                                -- urlparse of a number
   | .urlCanonicalizer discardParts =>
     -- `if not self.discard_parts or element.value is None: return True` (3bf2238)
     if discardParts.isEmpty || e.value == .none then pass
-    else match e.canon with
-      | none => fail "bad_format"
-      | some _ =>
-        -- `idx = _url_parts.index(part)` is outside the try: a name that is not one of the six
-        -- generic parts is a ValueError (the value is assigned only after the loop)
-        if discardParts.all (fun p => urlPartNames.contains p) then pass else .error .valueError
+    else match e.value with
+      | .str value =>
+        match canonicalize discardParts e.lib value with
+        | .error r => .error r
+        | .ok .badFormat => fail "bad_format"
+        | .ok (.rewritten _) => pass
+      | _ => fail "bad_format"                                   -- urlparse of a number raises, `except Exception`
 
 /-- the value after the call: only `URLCanonicalizer` assigns `element.value` -/
 def valueAfter (v : V) (e : View) : Val :=
   match v with
   | .urlCanonicalizer discardParts =>
     if discardParts.isEmpty || e.value == .none then e.value
-    else match e.canon with
-      | some c => c
-      | none => e.value
+    else match e.value with
+      | .str value =>
+        match canonicalize discardParts e.lib value with
+        | .ok (.rewritten c) => c                                -- `element.value = self.urlparse.urlunparse(url)`
+        | _ => e.value
+      | _ => e.value
   | _ => e.value
 
 /-! ### messages -/
@@ -538,7 +461,7 @@ def V.className : V → String
   | .hasAtLeast _ => "HasAtLeast" | .hasAtMost _ => "HasAtMost" | .hasBetween _ _ => "HasBetween"
   | .setWithKnownFields => "SetWithKnownFields" | .setWithAllFields => "SetWithAllFields"
   | .luhn10 => "Luhn10" | .isEmail _ => "IsEmail"
-  | .urlValidator _ _ => "URLValidator" | .httpURL _ _ => "HTTPURLValidator"
+  | .urlValidator _ _ => "URLValidator" | .httpURL _ _ _ => "HTTPURLValidator"
   | .urlCanonicalizer _ => "URLCanonicalizer"
 
 /-- the validator attributes a message can refer to -/
@@ -598,6 +521,27 @@ def runWith (table : List BuiltinMsg) (v : V) (e : View) (errors : List Str) :
 def run (v : V) (e : View) (errors : List Str) : Except Raise Outcome :=
   runWith Flatland.Generated.C16.builtinMessages v e errors
 
+/-- `Validator.note_warning(element, state, key, **info)`: line for line the body of `note_error`
+    with `element.add_warning` in place of `element.add_error` — the same function, of the
+    element's warnings list (`add_warning` ignores duplicates exactly as `add_error` does) -/
+def noteWarning (e : Env) (warnings : List Str) (m : Msg) (callable : Bool := false) :
+    Except Raise (List Str) :=
+  noteError e warnings m callable
+
+/-- a validator whose failures go through `note_warning`: `Outcome.errors` is then the element's
+    WARNINGS list after the call (its errors are not touched) -/
+def runWarnWith (table : List BuiltinMsg) (v : V) (e : View) (warnings : List Str) :
+    Except Raise Outcome := do
+  let (b, note) ← verdict v e
+  match note with
+  | none => pure { verdict := b, errors := warnings, value := valueAfter v e }
+  | some n =>
+    match messageOf table v.className n.key with
+    | none => .error .attributeError
+    | some msg =>
+      let warnings' ← noteWarning (envOf v e n.info) warnings msg
+      pure { verdict := b, errors := warnings', value := valueAfter v e }
+
 /-- `Validator.__init__(**kw)`: message attributes overridden on the instance shadow the
     class's templates -/
 def overrideTable (table : List BuiltinMsg) (cls : String) (overrides : List (String × Msg)) :
@@ -612,5 +556,9 @@ def overrideTable (table : List BuiltinMsg) (cls : String) (overrides : List (St
 def runOverridden (overrides : List (String × Msg)) (v : V) (e : View) (errors : List Str) :
     Except Raise Outcome :=
   runWith (overrideTable Flatland.Generated.C16.builtinMessages v.className overrides) v e errors
+
+def runWarnOverridden (overrides : List (String × Msg)) (v : V) (e : View) (warnings : List Str) :
+    Except Raise Outcome :=
+  runWarnWith (overrideTable Flatland.Generated.C16.builtinMessages v.className overrides) v e warnings
 
 end Flatland.C15
